@@ -362,6 +362,45 @@ func structural(F *Facts, nodeP, pegP, srvP, cmdP map[string]*ast.File) {
 		}
 	}
 
+	// package-level variables of the packages both the sync loop and the API handlers run code of:
+	// every one is memory shared between goroutines (file:name, with its declared type or the head
+	// of its initialiser). Constants and the verif-tagged hook file are not listed.
+	for _, pd := range []struct {
+		name  string
+		files map[string]*ast.File
+	}{{"node", nodeP}, {"node/pegnet", pegP}, {"node/conversions", convP}, {"srv", srvP}, {"fat/fat2", parseDir("fat/fat2")}} {
+		for fn, f := range pd.files {
+			if strings.Contains(fn, "verif_") {
+				continue
+			}
+			for _, d := range f.Decls {
+				gd, ok := d.(*ast.GenDecl)
+				if !ok || gd.Tok != token.VAR {
+					continue
+				}
+				for _, sp := range gd.Specs {
+					vs := sp.(*ast.ValueSpec)
+					for i, nm := range vs.Names {
+						if nm.Name == "_" {
+							continue
+						}
+						kind := ""
+						if vs.Type != nil {
+							kind = src(vs.Type)
+						} else if i < len(vs.Values) {
+							kind = src(vs.Values[i])
+							if j := strings.IndexAny(kind, "({\n"); j > 0 {
+								kind = kind[:j]
+							}
+						}
+						F.PackageVars = append(F.PackageVars, fn+":"+nm.Name+":"+kind)
+					}
+				}
+			}
+		}
+	}
+	sort.Strings(F.PackageVars)
+
 	// shared in-memory state: who touches it, from which package
 	all := map[string]map[string]*ast.File{"node": nodeP, "srv": srvP, "cmd": cmdP}
 	for pkg, files := range all {
